@@ -354,20 +354,41 @@ def learn1(ctx: Ctx, chk) -> None:
             chk.ok(rule, key, "gateway.protocol_version = In.payload", where, sample=V == "1.4")
         else:
             chk.refute(rule, "handle_i_version::assign", f"the version reply handler (protocol {V}) does not store the reported version (gateway.protocol_version = In.payload)", where or "src/aiomysensors/model/protocol/protocol_14.py", version=V)
-        # presentation of node 0
+        # presentation of node 0: on every normal path of a node presentation (child 255) the `node_id == 0`
+        # test is evaluated, and its true branch always runs the version handler
         chk.instance(rule)
         pres = cells[V].get(("cmd", "presentation"))
         reach = False
         locp = ""
+        why = f"a gateway (node 0) presentation does not reach the version handler in protocol {V}"
         for f in tables.chain_defs(ctx, pres, V) if pres else []:
             cn = Canon(I, f)
+            g = None
             for n in ctx.own_nodes(f):
                 if isinstance(n, ast.If) and cn.canon(n.test) in ("In.node_id == 0", "0 == In.node_id"):
                     calls = [x for b in n.body for x in ast.walk(b) if isinstance(x, ast.Call) and norm(x.func).endswith("handle_i_version")]
-                    if calls:
+                    if not calls:
+                        continue
+                    locp = ctx.loc(f, n)
+                    g = g or CFG(f.node)
+                    t2 = [x for x in g.nodes if x.kind == "test" and x.ast is n.test]
+                    cnodes = g.nodes_where(lambda x: x.contains(calls[0]))
+                    t1 = [x for x in g.nodes if x.kind == "test" and cn.canon(x.ast) in ("In.child_id == 255", "255 == In.child_id")]
+                    if not t1 or not t2:
+                        continue
+                    # (a) inside the node-presentation branch no normal path reaches the exit without evaluating the node-0 test
+                    starts = [s2 for x in t1 for s2, lab in x.succ if lab == "t"]
+                    p = g.reach_avoiding(starts, lambda x: x is g.exit, lambda x: x in t2, labels_skip=("exc",), from_succ=False)
+                    # (b) the true branch of the node-0 test always calls the version handler
+                    starts2 = [s2 for x in t2 for s2, lab in x.succ if lab == "t"]
+                    p2 = g.reach_avoiding(starts2, lambda x: x is g.exit, lambda x: x in cnodes, labels_skip=("exc",), from_succ=False)
+                    if p is None and p2 is None:
                         reach = True
-                        locp = ctx.loc(f, n)
+                    elif p is not None:
+                        why = f"a node presentation can complete without the node-0 test ({' -> '.join(g.path_text(p)[:4])}): a gateway presentation arriving in that state does not update the active protocol (protocol {V})"
+                    else:
+                        why = f"the node-0 branch can complete without calling the version handler (protocol {V})"
         if reach:
-            chk.ok(rule, f"presentation(node 0)@{V}", "node 0 presentation -> handle_i_version", locp, sample=False)
+            chk.ok(rule, f"presentation(node 0)@{V}", "every node presentation evaluates `node_id == 0`, whose true branch runs handle_i_version", locp, sample=False)
         else:
-            chk.refute(rule, "presentation(node 0)", f"a gateway (node 0) presentation does not reach the version handler in protocol {V}", "src/aiomysensors/model/protocol/protocol_14.py", version=V)
+            chk.refute(rule, "presentation(node 0)", why, locp or "src/aiomysensors/model/protocol/protocol_14.py", version=V)
